@@ -80,6 +80,15 @@ func VH_C07_expirePreservesInvariant() bool {
 	now := time.Unix(0, int64(vByte())+1)
 	c.expireSessions(now)
 	vCheckJ(e)
+	// a session past its RejectAfter time is not left as the current (sending) or pending session,
+	// otherwise Send keeps getting a session that refuses to encrypt and no new handshake starts.
+	// (The previous slot may briefly hold the session that just expired: it only receives, and
+	// Session.Deliver checks the expiry itself; demanding more would exceed the property.)
+	for i := 1; i < 3; i++ {
+		if s := c.sessions[i].Session; s != nil {
+			vAssert(!s.expiresAt.Before(now), "session-past-its-reject-time-kept-as-current-or-pending")
+		}
+	}
 	if s1 != nil && c.sessions[1].Session == nil {
 		vCover("current-expired")
 		vAssert(c.sessions[0].Session == s1, "expired-current-session-not-kept-as-previous")
